@@ -139,6 +139,13 @@ def execOp (chk : Bool) (tok : List String) : String :=
   | ["pk_from_bytes", n, hx] => renderDec (pkReencode (parseNat n) (parseHex hx))
   | ["sk_from_bytes", n, hx] => renderDec (skReencode chk (parseNat n) (parseHex hx))
   | ["sig_from_bytes", n, hx] => renderDec (sigReencode (parseNat n) (parseHex hx))
+  | ["dec_seq", ty, hx] =>
+      -- the same string under 512, 1024, 512 (the model has no memory: three independent calls)
+      let one (n : Nat) : String :=
+        if ty == "pk" then renderDec (pkReencode n (parseHex hx))
+        else if ty == "sk" then renderDec (skReencode chk n (parseHex hx))
+        else renderDec (sigReencode n (parseHex hx))
+      one 512 ++ " | " ++ one 1024 ++ " | " ++ one 512
   | ["felt_fft", a] => let v := parseNats a; renderInts (Ntt.ntt (Ntt.log2 v.length) v)
   | ["felt_ifft", a] => let v := parseNats a; renderRes renderInts (Ntt.intt (Ntt.log2 v.length) v)
   | ["ntt_roundtrip", a] =>
